@@ -780,6 +780,15 @@ def _atomic_store(eng, st, args, dty, callee, m):
     return UNIT
 
 
+@summary(r"^std::sync::atomic::Atomic(U64|Usize|U32|::<u(8|16|32|64|size)>)::fetch_(add|sub)$", "atomic fetch_add / fetch_sub (single-threaded, wrapping)")
+def _atomic_fetch_add(eng, st, args, dty, callee, m):
+    old = eng.load(st, args[0])
+    if not z3.is_bv(old):
+        raise SymError(f"fetch_add on a non-integer atomic {old!r}")
+    eng.store(st, args[0], simp(old + args[1]) if m.group(3) == "add" else simp(old - args[1]))
+    return old
+
+
 @summary(r"^std::sync::atomic::Atomic(Bool|U64|Usize|U32|::<.*>)::new$", "atomic new")
 def _atomic_new(eng, st, args, dty, callee, m):
     return args[0]
